@@ -1,9 +1,12 @@
 package main
 
 import (
+	"bytes"
+	"context"
 	"encoding/json"
 	"fmt"
 	"os"
+	"os/exec"
 	"path/filepath"
 	"sort"
 	"strconv"
@@ -64,6 +67,7 @@ type replayFile struct {
 	Output     string   `json:"verifier_output"`
 	Replay     string   `json:"replay_outcome"`
 	ReplayTest string   `json:"replay_test,omitempty"`
+	ReplayRun  string   `json:"replay_run,omitempty"` // test to run in replay_test (default TestVerifReplay)
 	ReplayLog  string   `json:"replay_log,omitempty"`
 	Errors     []string `json:"errors,omitempty"`
 }
@@ -231,6 +235,32 @@ func cmdCheck(eng *Engine, args []string, tier string, keep, verbose bool, start
 	if len(samples) == 0 {
 		samples = append(samples, map[string]interface{}{"note": "no obligations generated"})
 	}
+	// bounded stand-ins: trusted contracts that are at least run against the real code (never counted as proved)
+	boundedNotes := []string{}
+	for _, fc := range trusted {
+		for _, bs := range fc.Bounded {
+			n := "64"
+			if tier == "thorough" {
+				n = "2048"
+			}
+			out, ok, ran := runBounded(eng, fc, bs, n)
+			name := shortFuncName(fc.Key) + "/bounded:" + bs.Test
+			switch {
+			case !ran:
+				boundedNotes = append(boundedNotes, fmt.Sprintf("%s: NOT RUN (%s)", name, firstN(out, 300)))
+			case ok:
+				boundedNotes = append(boundedNotes, fmt.Sprintf("%s: bounded, %s cases (%s): the trusted contract held on the real code in every case; not a proof", name, n, bs.Bound))
+			default:
+				rf := &replayFile{Property: prop, Obligation: name, Function: shortFuncName(fc.Key), Kind: "bounded", Source: bs.Bound,
+					Result: "failed on the real code", Output: firstN(out, 6000), Replay: "the bounded test of the trusted contract fails on the real code (output attached)",
+					ReplayRun: bs.Test}
+				if src, err := os.ReadFile(filepath.Join(eng.verif, "bounded", bs.File)); err == nil {
+					rf.ReplayTest = string(src)
+				}
+				emitViolation(name, rf, false)
+			}
+		}
+	}
 	// thorough tier: contract validation against the real code (validate.go)
 	var vstats *validateStats
 	if tier == "thorough" && os.Getenv("VERIF_NOVALIDATE") == "" {
@@ -256,7 +286,7 @@ func cmdCheck(eng *Engine, args []string, tier string, keep, verbose bool, start
 			"known_findings_printed":   knownPrinted,
 			"samples":                  samples,
 			"contract_files":           eng.cs.Files,
-			"bounded_standins":         []string{},
+			"bounded_standins":         boundedNotes,
 		},
 		"assumptions": assumptionList,
 		"wall_s":      wall,
@@ -321,4 +351,48 @@ func verifyAllProp(eng *Engine, fcs []*FuncContract, lemmas []*AxiomDef, prop st
 	}
 	dischargeAll(results, dir, batchMs, singleMs, stats, keep)
 	return results
+}
+
+// runBounded runs one bounded stand-in test in the package of the trusted function (go test -overlay).
+// Returns (output, passed, ran); ran is false when the test could not be run or skipped itself.
+func runBounded(eng *Engine, fc *FuncContract, bs BoundedSpec, n string) (string, bool, bool) {
+	pkgDir := eng.pkgDirs[fc.PkgPath]
+	if pkgDir == "" {
+		return "package directory unknown for " + fc.PkgPath, false, false
+	}
+	src := filepath.Join(eng.verif, "bounded", bs.File)
+	if _, err := os.Stat(src); err != nil {
+		return err.Error(), false, false
+	}
+	base, err := os.MkdirTemp("", "rlv-bounded-")
+	if err != nil {
+		return err.Error(), false, false
+	}
+	defer os.RemoveAll(base)
+	ov := map[string]map[string]string{"Replace": {filepath.Join(pkgDir, "zz_verif_bounded_test.go"): src}}
+	data, _ := json.Marshal(ov)
+	ovFile := filepath.Join(base, "overlay.json")
+	os.WriteFile(ovFile, data, 0o644)
+	ctx, cancel := context.WithTimeout(context.Background(), 300*time.Second)
+	defer cancel()
+	cmd := exec.CommandContext(ctx, "go", "test", "-overlay", ovFile, "-vet=off", "-count=1", "-timeout", "240s", "-v", "-run", "^"+bs.Test+"$", "./")
+	cmd.Dir = pkgDir
+	cmd.Env = append(os.Environ(), "GOFLAGS=-mod=mod", "GOPROXY=off", "VERIF_BOUND="+n)
+	var out bytes.Buffer
+	cmd.Stdout = &out
+	cmd.Stderr = &out
+	rerr := cmd.Run()
+	o := strings.Map(func(r rune) rune {
+		if r == 0x1b {
+			return -1
+		}
+		return r
+	}, out.String())
+	if strings.Contains(o, "--- SKIP") || strings.Contains(o, "no tests to run") {
+		return o, false, false
+	}
+	if rerr != nil && !strings.Contains(o, "--- FAIL") {
+		return o, false, false // build failure or timeout: undecided, reported as not run
+	}
+	return o, rerr == nil, true
 }
